@@ -138,6 +138,57 @@ def _err(x):
     return isinstance(x, dict) and "error" in x
 
 
+def _call_strict(f):
+    """The same call in a process that turns numeric errors into exceptions: np.errstate(all='raise') and warnings as errors."""
+    try:
+        with np.errstate(all="raise"), warnings.catch_warnings():
+            warnings.simplefilter("error")
+            return f()
+    except Exception as e:  # noqa: BLE001
+        return {"error": common.err_class(e), "msg": str(e)[:200]}
+
+
+def _variants(build, ops, out):
+    """Every operation (a) on objects left in some state by earlier, unrelated use (c09.STATES) and (b) under the strict numeric-error state."""
+    from c09 import _in_states
+
+    out["states"] = _in_states(build, ops)
+    strict = {}
+    for nm, op in ops.items():
+        fd = _call(build)
+        strict[nm] = fd if _err(fd) else _call_strict(lambda op=op, fd=fd: op(fd))
+    out["strict"] = strict
+
+
+def _all_finite(x):
+    if isinstance(x, dict):
+        return False
+    if isinstance(x, (list, tuple)):
+        return all(_all_finite(y) for y in x)
+    return isinstance(x, (int, float)) and math.isfinite(x)
+
+
+# (class, operation) pairs that raise under the strict state on the UNCHANGED tree although they return finite values otherwise
+# (recorded in docs/C10.md as an observation): sqrt of a negative smoothed variance in the irregular standardisation
+STRICT_EXCLUDED = {("IrregularFunctionalData", "standardize"), ("MultivariateFunctionalData+irregular", "standardize")}
+
+
+def _variant_violations(impl, bad, cls, strict_cls=None):
+    from c09 import _same, _state_violations
+
+    if "states" not in impl:
+        return
+    _state_violations(impl["states"], bad, lambda nm: cls + "." + nm.split("(")[0])
+    for nm, b in impl["states"]["base"].items():
+        op = nm.split("(")[0]
+        if (strict_cls or cls, op) in STRICT_EXCLUDED or not _all_finite(b):
+            continue  # judged only where the default state returns finite values
+        st = impl["strict"][nm]
+        if not _same(st, b):
+            bad("strict_state", f"{nm} returns finite values by default but under np.errstate(all='raise') + warnings-as-errors "
+                f"gives {str(st)[:120]}", cls + "." + op, ["numeric-error-state"])
+
+
 class _AdversarialDivide:
     """Stand-in for `np.divide` that gives calls with `where=` but no `out=` a
     NaN-initialised result buffer: NumPy leaves the masked entries of a fresh buffer
@@ -363,7 +414,15 @@ def gen_cases(rng: Rng, tier):
                          else _irr_comp(rng, N, lp_only=True) if mix == "di" else _basis_comp(rng, N, uniform=uni, named=False))
             if mix == "dd" and rng.random() < 0.4:
                 comps.append(_dense_comp(rng, N, uniform=uni))
-            yield dict(kind=kind, mix=mix, comps=comps, **opts, ck=comps[0]["ck"],
+            form = rng.choice(["float-array", "float-array", "int-list", "int-array", "mixed-list"])
+            if form != "float-array":
+                # integer user weights, a given weight next to a 0 (= estimate) entry: [4, 0], np.array([4, 0]), [4, 0.0]
+                iw = [rng.choice([0, 0, 4, 9, 1, 16]) for _ in comps]
+                if all(x == 0 for x in iw) or all(x != 0 for x in iw):
+                    iw[0], iw[-1] = rng.choice([4, 9]), 0
+                yield dict(kind=kind, mix=mix, comps=comps, **opts, ck=comps[0]["ck"], uw=[rs(Fraction(x)) for x in iw], uw_form=form)
+                continue
+            yield dict(kind=kind, mix=mix, comps=comps, **opts, ck=comps[0]["ck"], uw_form=form,
                        uw=[rs(rng.choice([Fraction(0), Fraction(4), Fraction(9), Fraction(2) ** rng.randint(-40, 40), Fraction(2) ** rng.randint(-40, -27)]))
                            for _ in comps])
 
@@ -515,6 +574,14 @@ def _impl_grid(case, build, out):
 
     out["history"] = _call(history)
     out["grid"] = _call(lambda: _grid_vals(build()).tolist())
+    _variants(build, {
+        "center": lambda fd: _grid_vals(fd.center()).tolist(),
+        "normalize": lambda fd: _grid_vals(fd.normalize(**opts)).tolist(),
+        "standardize": lambda fd: _grid_vals(fd.standardize(center=case["center"])).tolist(),
+        "rescale": lambda fd: (lambda r: [_grid_vals(r[0]).tolist(), float(r[1])])(fd.rescale(**opts)),
+        "rescale(weights=w)": lambda fd: (lambda r: [_grid_vals(r[0]).tolist(), float(r[1])])(fd.rescale(weights=w, **opts)),
+        "norm": lambda fd: np.asarray(fd.norm(**opts), dtype=float).tolist(),
+    }, out)
 
 
 def _impl_irreg(case, out, comp=None):
@@ -631,6 +698,15 @@ def _impl_irreg(case, out, comp=None):
         return o
 
     out["history"] = _call(history)
+    ro_ = dict(use_argvals_stand=case["stand"], method_integration=case["integ"], **rkw)
+    _variants(build, {
+        "center": lambda fd: _vals(fd.center(**ckw)),
+        "normalize": lambda fd: _vals(fd.normalize(**opts)),
+        "standardize": lambda fd: _vals(fd.standardize(**rkw)),
+        "rescale": lambda fd: (lambda r: [_vals(r[0]), float(r[1])])(fd.rescale(**ro_)),
+        "rescale(weights=w)": lambda fd: (lambda r: [_vals(r[0]), float(r[1])])(fd.rescale(weights=w)),
+        "norm": lambda fd: np.asarray(fd.norm(**opts), dtype=float).tolist(),
+    }, out)
 
 
 def _alt_kw(sm, parity):
@@ -708,13 +784,33 @@ def _impl_multi(case, out):
 
     out["rescale"] = _call(rescale)
 
+    def user_weights():
+        """The user's weights in the form the case asks for (float array, Python ints, integer array, mixed list)."""
+        form = case.get("uw_form", "float-array")
+        q = [F(x) for x in case["uw"]]
+        if form == "int-list":
+            return [int(x) for x in q]
+        if form == "int-array":
+            return np.array([int(x) for x in q], dtype=np.int64)
+        if form == "mixed-list":
+            return [int(x) if k % 2 == 0 else float(x) for k, x in enumerate(q)]
+        return np.array([float(x) for x in q])
+
     def rescale_user():
-        uw = np.array([float(F(x)) for x in case["uw"]])
+        uw = user_weights()
         ro = dict(opts, **rkw)
         r, wt = build().rescale(weights=uw, **ro)
         return dict(v=[cv(x) for x in r.data], w=np.asarray(wt, dtype=float).tolist(), raw=[cv(x) for x in build().data])
 
     out["rescale_user"] = _call(rescale_user)
+    ro_ = dict(opts, **rkw)
+    _variants(build, {
+        "center": lambda fd: [cv(x) for x in fd.center(**ckw).data],
+        "normalize": lambda fd: [cv(x) for x in fd.normalize(**opts).data],
+        "standardize": lambda fd: [cv(x) for x in fd.standardize(center=case["center"], **ckw).data],
+        "rescale": lambda fd: (lambda r: [[cv(x) for x in r[0].data], np.asarray(r[1], dtype=float).tolist()])(fd.rescale(**ro_)),
+        "norm": lambda fd: np.asarray(fd.norm(**opts), dtype=float).tolist(),
+    }, out)
 
 
 def run_impl(case):
@@ -1374,7 +1470,12 @@ def _oracle_multi(case, impl, bad):
                     bad("rescale_user_weight", f"component {p}: user weight {uw} does not divide the values by sqrt(w) (returned {w})", E + "rescale")
                     break
             elif not _err(r) and not (abs(w - r["w"][p]) <= 1e-12 * abs(r["w"][p]) or (math.isnan(w) and math.isnan(r["w"][p]))):
-                bad("multivariate_componentwise", f"component {p}: weight 0 means 'estimate', got {w} vs {r['w'][p]}", E + "rescale")
+                bad("multivariate_componentwise", f"component {p}: weight 0 means 'estimate', got {w} vs {r['w'][p]} "
+                    f"(weights given as {case.get('uw_form')}: {case['uw']})", E + "rescale", ["weights-form:" + str(case.get("uw_form"))])
+                break
+            elif not _err(r) and r["w"][p] > 0 and math.isfinite(r["w"][p]) and not _flat_close(ru["v"][p], r["v"][p], 1e-12):
+                bad("multivariate_componentwise", f"component {p}: with weight 0 (= estimate) next to given weights the values differ from rescale() without weights "
+                    f"(weights given as {case.get('uw_form')})", E + "rescale", ["weights-form:" + str(case.get("uw_form"))])
                 break
 
 
@@ -1394,10 +1495,14 @@ def oracle(case, impl):
         return vs  # named basis with non-finite values (e.g. too few functions for the B-spline degree): C18's matter, counted in classify
     if kind in ("dense1", "dense2", "basis1", "basis2"):
         _oracle_grid(case, impl, bad)
+        _variant_violations(impl, bad, "BasisFunctionalData" if kind.startswith("basis") else "DenseFunctionalData")
     elif kind == "irreg":
         _oracle_irreg(case, impl, bad)
+        _variant_violations(impl, bad, "IrregularFunctionalData")
     elif kind == "multi":
         _oracle_multi(case, impl, bad)
+        irr = any(c["type"] == "irreg" for c in case["comps"])
+        _variant_violations(impl, bad, "MultivariateFunctionalData", "MultivariateFunctionalData+irregular" if irr else None)
     return vs
 
 
@@ -1417,6 +1522,7 @@ def classify(case, impl):
         tags += ["irregular:model:" + part for part in _irreg_parts(case, impl)]
     if case["kind"] == "multi":
         tags.append("multi:" + case["mix"])
+        tags.append("user-weights-form:" + str(case.get("uw_form")))
     for c in [case] + list(case.get("comps", [])):
         if c.get("type", "").startswith("dense") and any(abs(F(x)) >= 2 ** 19 for x in c["X"][0][:1]):
             tags.append("offset>>spread")
